@@ -48,7 +48,7 @@ def _symbols(t, cache):
     """Uninterpreted symbol names (constants and functions) occurring in t."""
     i = t.get_id()
     if i in cache:
-        return cache[i]
+        return cache[i][1]
     out = set()
     todo = [t]
     seen = set()
@@ -66,13 +66,23 @@ def _symbols(t, cache):
             if d.kind() == z3.Z3_OP_UNINTERPRETED:
                 out.add(d.name())
             todo.extend(u.children())
-    cache[i] = out
+    cache[i] = (t, out)        # keep the term alive: z3 reuses the ids of freed terms
     return out
 
 
 def cone_of_influence(pc, goal):
     """Keep the assumptions connected to the goal through shared uninterpreted symbols (dropping hypotheses is sound)."""
     cache = SYMCACHE
+    # flatten top-level conjunctions so that unrelated facts bundled in one assumption do not connect everything
+    flat = []
+    todo = list(pc)
+    while todo:
+        a = todo.pop()
+        if z3.is_and(a):
+            todo.extend(a.children())
+        else:
+            flat.append(a)
+    pc = flat
     rel = set(_symbols(goal, cache)) - _WEAK
     syms = [(_symbols(a, cache) - _WEAK) for a in pc]
     keep = [False] * len(pc)
@@ -185,11 +195,14 @@ def discharge(ob, timeout_ms=10000, use_cvc5=True):
         return ob
     global LAST_MODEL
     LAST_MODEL = None
-    if z3.is_false(g):
+    guard = None
+    if z3.is_implies(g) and z3.is_false(g.arg(1)):
+        guard = g.arg(0)            # `false` obliged inside an `and`/`or` operand: reachable iff the guard is
+    if z3.is_false(g) or guard is not None:
         # the goal is literally `false` (an event that must not happen on this path happened): the question is only whether the
         # path is feasible.  Every branch decision of the path was checked feasible on its quantifier-free part; that part is asked
         # once more here, so that a counter-model is available without waiting for the quantified part to time out.
-        qf = [a for a in ob.pc if not has_quant(a)]
+        qf = [a for a in ob.pc if not has_quant(a)] + ([guard] if guard is not None else [])
         v, m, be, secs = check_sat(qf, min(timeout_ms, 5000), use_cvc5=False)
         if v == "sat":
             ob.verdict, ob.model, ob.backend, ob.secs = "sat", m, be + "(path-feasibility)", secs
@@ -199,7 +212,21 @@ def discharge(ob, timeout_ms=10000, use_cvc5=True):
     # path condition, so that counter-models always satisfy every assumption
     coi = cone_of_influence(list(ob.pc), g)
     v, m, be, secs = check_sat(coi + [z3.Not(g)], timeout_ms, use_cvc5=False)
-    if v != "unsat" and len(coi) < len(ob.pc):
+    if v == "sat" and len(coi) < len(ob.pc):
+        # The cone is closed under shared symbols, so the remaining assumptions are symbol-disjoint from cone and goal: the cone's
+        # counter-model extends to the whole path condition iff the remainder is satisfiable.  Ask the full query briefly; only a
+        # definite `unsat` (a vacuous path) overrides the refutation.
+        cone_model = LAST_MODEL
+        v2, m2, be2, secs2 = check_sat(list(ob.pc) + [z3.Not(g)], min(timeout_ms, 3000), use_cvc5=False)
+        secs += secs2
+        if v2 == "unsat":
+            v, m, be = "unsat", None, be2 + "(vacuous path)"
+        elif v2 == "sat":
+            m, be = m2, be2
+        else:
+            LAST_MODEL = cone_model
+            be = be + "(cone)"
+    elif v != "unsat" and len(coi) < len(ob.pc):
         v, m, be, secs2 = check_sat(list(ob.pc) + [z3.Not(g)], timeout_ms, use_cvc5)
         secs += secs2
     elif v == "unknown" and use_cvc5:
